@@ -57,6 +57,8 @@ COQ_CHECKS = {"rle": "c09_check_rle", "dict": "c09_check_dict", "sparse": "c09_c
 COQ_SHOW = {"rle": "c09_show_rle", "dict": "c09_show_dict", "sparse": "c09_show_sparse",
             "const": "c09_show_const", "func": "c09_show_func", "session": "c09_show_session"}
 COQ_CHECKS["session"] = "c09_check_session"
+COQ_CHECKS["sparse_decl"] = "c09_check_sparse_decl"
+COQ_SHOW["sparse_decl"] = "c09_show_sparse_decl"
 # long cases (the boundary sweep) go to four extra shards per column, same check functions, so that they are
 # type-checked in parallel instead of all landing in one cases file
 _SPREAD = 4
@@ -75,6 +77,8 @@ RULE = ("real RLEColumn / DictionaryColumn / SparseColumn / ConstantColumn / Fun
         "descriptive constructor arguments; sessions create several constant / function column objects that share ONE binding function object per name, with configurations "
         "that compare equal but are of different kinds (1 / 1.0 / True, 0 / 0.0 / -0.0 / False, 2**53 / 2.0**53), a counter binding, lengths given or defaulted, and expand / "
         "rebind configuration or length / overwrite a returned array / expand again (evaluated in Coq by sess_run and judged by the oracle); "
+        "columns also DECLARE a schema default (FlatColumn default=, parsed by the declared type) that mostly occurs in the data - exhaustively all sequences of length <= 3 "
+        "(thorough 4) over {a, b, null} for 6 alphabets x declared default a / b x sparse default_value None / left out; values handed over as list, tuple or ndarray; "
         "boundary sweep (fixed permutations + seeded sizes): number of dictionary entries, run length, number of runs, sparse index / total length / "
         "number of stored values, constant and function length just below, at and above 2^7, 2^8, 2^15, 2^16; "
         "a case is non-trivial when it expanded without raising and holds >= 2 elements (constant/function: length >= 1); distinct by canonical JSON")
@@ -315,7 +319,33 @@ def _scribble(arr):
 _DECL_TYPES = ([["enum", n] for n in ("VARCHAR", "BLOB", "INTEGER", "DOUBLE", "DECIMAL", "ARRAY", "BOOLEAN", "TIMESTAMP", "JSONB", "NULL")] +
                [["name", n] for n in ("VARCHAR", "varchar", "VARCHAR[20]", "varchar[2]", "VARCHAR[0]", "VARCHAR[65537]", "BLOB", "BLOB[4]", "blob[3]",
                                       "DECIMAL(10,2)", "DECIMAL", "ARRAY<INTEGER>", "INTEGER", "double", "BOOLEAN", "TIMESTAMP", "STRUCT")])
-_DECL_EXTRA = [{}, {}, {"nullable": False}, {"precision": 7, "scale": 2}, {"description": "d", "aliases": ["a", "b"]}, {"element_type": "INTEGER"}]
+_DECL_EXTRA = [{}, {}, {"nullable": False}, {"precision": 7, "scale": 2}, {"description": "d", "aliases": ["a", "b"]}, {"element_type": "INTEGER"},
+               {"lowest_value": 0, "highest_value": 9, "null_count": 3}, {"origin": ["t"], "identity": "zz"},
+               {"description": None, "precision": None, "scale": None, "element_type": None, "disposition": None},  # explicit None = left out
+               {"aliases": [], "expectations": [], "nullable": True}]
+# ways of declaring a type under which a declared default of that kind parses (FlatColumn.__init__ raises otherwise)
+_DEFAULT_TYPES = {"i": [["enum", "INTEGER"], ["name", "INTEGER"], ["name", "integer"], ["enum", "DOUBLE"]],
+                  "f": [["enum", "DOUBLE"], ["name", "DOUBLE"], ["name", "double"]],
+                  "s": [["enum", "VARCHAR"], ["name", "VARCHAR"], ["name", "VARCHAR[20]"], ["name", "varchar[2]"]],
+                  "b": [["enum", "BOOLEAN"], ["name", "BOOLEAN"]]}
+
+
+def _declared_default(v, k=0, extra=0):
+    """a declaration whose schema default is the value v (None if v cannot be declared: null, NaN / infinity, beyond int64)"""
+    if v is None or (isinstance(v, float) and (v != v or abs(v) == INF)) or (_is_int(v) and not I64[0] <= v <= I64[1]):
+        return None
+    ts = _DEFAULT_TYPES[enc(v)[0]]
+    d = {"type": ts[k % len(ts)], "default": enc(v)}
+    if _DECL_EXTRA[extra % len(_DECL_EXTRA)]:
+        d["extra"] = _DECL_EXTRA[extra % len(_DECL_EXTRA)]
+    return d
+
+
+def _one_kind(vs):
+    """non-empty, one kind among bool / int64 / float / text, no nulls: numpy.array leaves such a list as it is
+    (theorem C09_np_array_identity_on_one_kind), so handing the column an ndarray is handing it the same sequence"""
+    kinds = {v[0] for v in vs}
+    return len(vs) > 0 and len(kinds) == 1 and kinds <= {"b", "i", "f", "s"} and all(v[0] != "i" or I64[0] <= v[1] <= I64[1] for v in vs)
 
 
 def _decl_kwargs(decl):
@@ -325,6 +355,8 @@ def _decl_kwargs(decl):
     how, name = decl["type"]
     kw = dict(decl.get("extra") or {})
     kw["type"] = OrsoTypes[name] if how == "enum" else name
+    if decl.get("default") is not None:
+        kw["default"] = dec(decl["default"])  # the schema-level default (FlatColumn.default), not the sparse default_value
     return kw
 
 
@@ -348,11 +380,22 @@ def _build(case):
     if kind == "const":
         return ConstantColumn(name="c", value=dec(case["value"]), length=case["length"], **kw)
     values = [dec(v) for v in case["values"]]
+    if case.get("container") == "tuple":
+        values = tuple(values)
+    elif case.get("container") == "ndarray":
+        import numpy
+        if not _one_kind(case["values"]):
+            raise KeyError("ndarray container for data numpy.array would change")
+        values = numpy.array(values)
     if kind == "rle":
         return RLEColumn(name="c", values=values, **kw)
     if kind == "dict":
         return DictionaryColumn(name="c", values=values, **kw)
     if kind == "sparse":
+        if case.get("default_omitted"):  # only with a null sparse default: the argument is left out instead of passed as None
+            if case["default"] != ["n"]:
+                raise KeyError("default_omitted with a default")
+            return SparseColumn(name="c", values=values, **kw)
         return SparseColumn(name="c", values=values, default_value=dec(case["default"]), **kw)
     raise KeyError(kind)
 
@@ -936,6 +979,14 @@ def _to_coq(case, obs):
     if _model_too_slow(case, obs):
         return None
     vals = coq_vals(case["values"])
+    if kind == "sparse" and (case.get("decl") or case.get("default_omitted")):
+        dc = case.get("decl") or {}
+        size = _decl_size(dc)
+        dcl = "(mkdecl %s %s)" % ("None" if size is None else "(Some %s)" % L.N(size),
+                                  "None" if dc.get("default") is None else "(Some %s)" % coq_val(dc["default"]))
+        arg = "(None : option val)" if case.get("default_omitted") else "(Some %s)" % coq_val(case["default"])
+        term = "(%s, %s, %s, %s, %s)" % (dcl, arg, vals, fn, coq_obs(obs))
+        return ("sparse_decl", term) if len(term) <= _TERM_LIMIT else None
     if kind == "sparse":
         term = "(%s, %s, %s, %s)" % (vals, coq_val(case["default"]), fn, coq_obs(obs))
     else:
@@ -997,6 +1048,14 @@ def classify(case, obs):
         yield "declared-type:" + case["decl"]["type"][0] + ("[size]" if _decl_size(case["decl"]) is not None else "")
         for k in (case["decl"].get("extra") or {}):
             yield "declared-extra:" + k
+        if case["decl"].get("default") is not None:
+            yield "declared-default:" + _vkind(case["decl"]["default"])
+            if case["decl"]["default"] in case.get("values", []) or case["decl"]["default"] == case.get("value"):
+                yield "declared-default-occurs-in-data"
+    if case.get("default_omitted"):
+        yield "sparse-default_value-omitted"
+    if case.get("container"):
+        yield "values-given-as:" + case["container"]
     if kind == "session":
         news = [st[1] for st in case["steps"] if st[0] == "new"]
         yield "session:columns=%d" % len(news)
@@ -1380,12 +1439,62 @@ def _declared_fixed(tier):
         yield {"col": "rle", "values": [enc(v) for v in seq], "fn": None, "decl": _decl(i, i)}
         yield {"col": "dict", "values": [enc(v) for v in seq], "fn": None, "decl": _decl(i, i + 1)}
         yield dict(_sparse(seq, a[2]), decl=_decl(i, i + 2))
+        for cont in ("tuple", "ndarray"):  # the same sequences handed over as a tuple / as an ndarray
+            yield {"col": "rle", "values": [enc(v) for v in seq], "fn": None, "container": cont}
+            yield {"col": "dict", "values": [enc(v) for v in seq], "fn": None, "container": cont, "decl": _decl(i, i)}
+            yield dict(_sparse(seq, a[2]), container=cont)
+            yield dict(_sparse(seq, a[0]), container=cont, script=["mat", "scribble", "mat"])
 
 
 def _with_random_decl(rng, case, p):
-    if rng.random() < p:
+    r = rng.random()
+    if r < p:
         case = dict(case, decl=_decl(rng.randrange(len(_DECL_TYPES)), rng.randrange(len(_DECL_EXTRA))))
+    elif r < 2 * p:
+        # a declared schema default, mostly one that occurs in the data
+        pool = [dec(v) for v in case.get("values", []) + case.get("cfg", []) + ([case["value"]] if "value" in case else [])]
+        pool = [v for v in pool if v is not None]
+        v = rng.choice(pool) if pool and rng.random() < 0.8 else rng.choice([0, 1, "", "a", 1.5, 0.0, True, False])
+        d = _declared_default(v, rng.randrange(4), rng.randrange(len(_DECL_EXTRA)))
+        if d is not None:
+            case = dict(case, decl=d)
+    if case["col"] == "sparse" and case["default"] == ["n"] and rng.random() < 0.5:
+        case = dict(case, default_omitted=True)
+    if "values" in case and rng.random() < 0.3:
+        case = dict(case, container="ndarray" if _one_kind(case["values"]) and rng.random() < 0.6 else "tuple")
     return case
+
+
+# sparse around null (given as None or left out) while the column DECLARES a schema default that occurs in the data
+_ALPHABETS_DECLARED = [(1, 0, None), ("a", "", None), (1.5, 2.5, None), (True, False, None), ("abc", "x", None), (0, 2 ** 53 + 1, None)]
+
+
+def _declared_default_fixed(tier):
+    top = 3 if tier == "quick" else 4
+    n = 0
+    for k in range(0, top + 1):
+        for seq in itertools.product(range(3), repeat=k):
+            for a in _ALPHABETS_DECLARED:
+                for which in (0, 1):
+                    for omitted in (False, True):
+                        n += 1
+                        c = dict(_sparse([a[i] for i in seq], None), decl=_declared_default(a[which], n, n // 4))
+                        if omitted:
+                            c["default_omitted"] = True
+                        yield c
+    # ... and the other columns / a non-null sparse default under a declared default
+    for i, a in enumerate(_ALPHABETS_DECLARED):
+        seq = [a[t] for t in (0, 1, 1, 0, 0, 1)]
+        for which in (0, 1):
+            d = _declared_default(a[which], i, i + which)
+            yield dict(_sparse(seq, a[1 - which]), decl=d)
+            yield dict(_sparse(seq, a[which]), decl=d)
+            yield {"col": "rle", "values": [enc(v) for v in seq], "fn": None, "decl": d}
+            yield {"col": "dict", "values": [enc(v) for v in seq], "fn": None, "decl": d}
+            yield {"col": "const", "value": enc(a[which]), "length": 3, "fn": None, "decl": d}
+            yield {"col": "func", "binding": "first", "cfg": [enc(a[which])], "length": 2, "decl": d}
+            yield dict(_sparse(seq + [None], None), decl=d, script=["mat", "scribble", "mat"])
+            yield dict(_sparse(seq + [None], None), decl=d, default_omitted=True, script=["mat", "scribble", "mat"])
 
 
 def exhaustive(tier):
@@ -1420,6 +1529,8 @@ def exhaustive(tier):
                 yield {"col": "const", "value": enc(v), "length": n, "fn": None}
                 yield {"col": "func", "binding": "first", "cfg": [enc(v)], "length": n}
         for c in _declared_fixed(tier):
+            yield c
+        for c in _declared_default_fixed(tier):
             yield c
         for c in _sessions_fixed(tier):
             yield c
@@ -1675,6 +1786,12 @@ def _shrink(case):
         return
     if case.get("decl"):
         yield dict(case, decl=None)
+        if case["decl"].get("extra"):
+            yield dict(case, decl={k: v for k, v in case["decl"].items() if k != "extra"})
+    if case.get("default_omitted"):
+        yield {k: v for k, v in case.items() if k != "default_omitted"}
+    if case.get("container"):
+        yield {k: v for k, v in case.items() if k != "container"}
     if "script" in case:
         sc = case["script"]
         for i in range(len(sc)):
